@@ -87,6 +87,8 @@ def run(ctx):
     # deploys that each change one root only, then rollbacks to the middle one: every root's manifest, changed or not, must come back
     ds.run_hist_stream(ctx, 5 if quick else 60, 8, props={'C06'}, weights={'deploy': 1}, stream='two_root_hist',
                        plan_script=ds.hist_two_roots, setup=ds.setup_two_roots)
+    ds.run_hist_stream(ctx, 5 if quick else 60, 6, props={'C06'}, weights={'deploy': 1}, stream='drift_then_deploy',
+                       plan_script=ds.hist_drift_then_deploy, setup=ds.setup_two_roots)
     ds.run_hist_stream(ctx, 5 if quick else 60, 8, props={'C06'}, weights={'deploy': 1}, stream='repeat_rollback',
                        plan_script=ds.hist_repeat_rollback, setup=ds.setup_two_roots)
     ds.run_hist_stream(ctx, 16 if quick else 250, 6 if quick else 9, props={'C06'},
